@@ -336,6 +336,8 @@ func (h *httpServerHandler) handlePostRequest(ctx context.Context, w http.Respon
 		reqCtx := withNotificationSender(ctx, notificationSender)
 		if session != nil {
 			reqCtx = setSessionToContext(reqCtx, session)
+			// Middlewares retrieve the session with ClientSessionFromContext (see HandlerFunc).
+			reqCtx = withClientSession(reqCtx, session)
 		}
 		resp, err := h.requestHandler.handleRequest(reqCtx, &req, session)
 		if err != nil {
@@ -376,6 +378,8 @@ func (h *httpServerHandler) handlePostRequest(ctx context.Context, w http.Respon
 	reqCtx := withNotificationSender(ctx, noopSender)
 	if session != nil {
 		reqCtx = setSessionToContext(reqCtx, session)
+		// Middlewares retrieve the session with ClientSessionFromContext (see HandlerFunc).
+		reqCtx = withClientSession(reqCtx, session)
 	}
 	resp, err := h.requestHandler.handleRequest(reqCtx, &req, session)
 	if err != nil {
